@@ -849,7 +849,7 @@ func c18Run(ctx *Ctx, t *tape.Tape) *report.Violation {
 // c18Counts: cases of the normal arm and of the race arm.
 func c18Counts(tier string) (normal, race int) {
 	if tier == "thorough" {
-		return 4000000, 400000
+		return 4000000, 200000
 	}
 	return 120000, 12000
 }
